@@ -14,6 +14,7 @@ import (
 func main() {
 	repo := flag.String("repo", "/repo", "repository root")
 	out := flag.String("out", "", "output directory for generated .v files")
+	flag.String("work", "", "directory for schemas.json (default: <out>/../../work)")
 	flag.Parse()
 	if *out == "" {
 		fmt.Fprintln(os.Stderr, "missing -out")
